@@ -64,6 +64,10 @@ Fixpoint guards (s : hsol) (ops : list hop) : Prop :=
 
 Definition init (jobs : list Z) : hsol := mkH [] jobs [].
 
+(* insertions.rs :: finalize_insertion_ctx (since commit 03c7b61): finalize_unassigned, accept_solution_state (no effect on
+   the lists), remove_empty_routes.  Every run of InsertionHeuristic::process ends with it. *)
+Definition finalize_ctx : list hop := [HFinalize; HDropEmpty].
+
 (* Solution::from: what is handed to the writer *)
 Definition reported_unassigned (s : hsol) : list Z := h_unassigned s ++ h_required s.
 
